@@ -94,7 +94,10 @@ impl<R: Read> BufRead for LowMarkBufReader<R> {
                         let new_cap = new_cap + offset;
                         //assert!(new_cap % CACHE_LINE_SIZE == 0);
                         //println!("moving {} bytes", in_buf);
-                        self.buf.copy_within(self.pos..self.cap, offset);
+                        // also move the `offset` bytes in front of pos so that the alignment gap
+                        // [0..offset) holds the real preceding bytes (abs_pos refers to buf[0], and
+                        // Seek accepts any target >= abs_pos)
+                        self.buf.copy_within(self.pos - offset..self.cap, 0);
                         self.cap = new_cap;
                         self.abs_pos += self.pos - offset;
                         self.pos = offset;
